@@ -184,6 +184,7 @@ func (m *runtimeContextManager) requireCPU(cpuAmount uint64) {
 		m.updateTimeUsed()
 	}
 	m.usedResources.Cpu = cpuUsed
+	verifRequired(m, 0, cpuAmount)
 }
 
 func (m *runtimeContextManager) UnusedCPU() uint64 {
@@ -208,6 +209,7 @@ func (m *runtimeContextManager) requireMem(memAmount uint64) {
 		m.TerminateContext("memory limit of %d exceeded", m.hardLimits.Memory)
 	}
 	m.usedResources.Memory = memUsed
+	verifRequired(m, 1, memAmount)
 }
 
 func (m *runtimeContextManager) RequireSize(sz uintptr) (mem uint64) {
